@@ -62,7 +62,8 @@ Definition bit (x mask : N) : bool := negb (N.land x mask =? 0).
 
 Inductive vkind : Set :=
 | KEther | KIP4 | KIP6 | KUDP | KARP | KICMP | KICMPEcho | KRS | KRA | KNA | KNS
-| KDHCP4 | KDNS | KPause | KIEEE1905.
+| KDHCP4 | KDNS | KPause | KIEEE1905
+| KLLC | KSNAP | KRRCP | KRedirect | KLLDP.
 
 (* DHCP4.validateOptions over p[240:] *)
 Fixpoint dhcp_opts_ok (fuel : nat) (o : bytes) : bool :=
@@ -98,11 +99,67 @@ Definition view_valid (k : vkind) (p : bytes) : bool :=
   | KDNS => Nat.leb 12 n
   | KPause => Nat.leb 46 n && (w16 p 0 =? 1)
   | KIEEE1905 => Nat.leb 8 n
+  | KLLC => Nat.leb 3 n
+  | KSNAP => Nat.leb 9 n
+  | KRRCP => Nat.leb 16 n
+  | KRedirect => Nat.leb 8 n && Nat.leb (8 + N.to_nat (bt p 4) * N.to_nat (bt p 5) * 4) n
+                 && (bt p 0 =? 137) && ((bt p 5 =? 4) || (bt p 5 =? 10))
+  | KLLDP => Nat.leb 6 n
   end.
 
 (* an option "type t, length 1 (8 bytes)" at offset o holding a link-layer address *)
 Definition lla_at (p : bytes) (o : nat) (t : N) : bytes :=
   if Nat.leb (o + 8) (plen p) && (bt p o =? t) && (bt p (o + 1) =? 1) then vsub p (o + 2) 6 else [].
+
+(* LLC.Type *)
+Definition llc_type (p : bytes) : bytes :=
+  if (bt p 2 =? 3) && (bt p 0 =? 170) && (bt p 1 =? 170) then s2b "snap"
+  else if N.land (bt p 2) 3 =? 3 then s2b "u"
+  else if N.land (bt p 2) 1 =? 1 then s2b "s" else s2b "i".
+
+(* ICMP4Redirect.Addrs: entry i starts at 8 + i*AddrSize*4; 4 bytes when AddrSize = 4, else 16 *)
+Definition redirect_addrs (p : bytes) : list (option bytes) :=
+  let sz := N.to_nat (bt p 5) in
+  map (fun i => Some (vsub p (8 + i * sz * 4) (if bt p 5 =? 4 then 4 else 16))) (seq 0 (N.to_nat (bt p 4))).
+
+(* LLDP.Type(t) *)
+Definition lldp_type (t : N) : bytes :=
+  match t with
+  | 0 => s2b "endpdu" | 1 => s2b "chassisID" | 2 => s2b "port" | 3 => s2b "ttl" | 4 => s2b "portdesc"
+  | 5 => s2b "name" | 6 => s2b "description" | 7 => s2b "capabilities" | 8 => s2b "mngntaddr"
+  | _ => dec t
+  end.
+(* LLDP.Capability(v): names of the bits of v[1], comma separated *)
+Definition lldp_capability (v : bytes) : bytes :=
+  if Nat.ltb (List.length v) 2 then []
+  else let b := nth 1 v 0 in
+       let s := (if bit b 128 then s2b "other," else []) ++ (if bit b 64 then s2b "repeater," else [])
+                ++ (if bit b 32 then s2b "bridge," else []) ++ (if bit b 16 then s2b "AP," else [])
+                ++ (if bit b 8 then s2b "router," else []) ++ (if bit b 4 then s2b "phone," else [])
+                ++ (if bit b 2 then s2b "docsis," else []) ++ (if bit b 1 then s2b "station," else []) in
+       removelast s.
+(* LLDP.FastLog: walk the TLVs from pos; getTLV: type = p[n]>>1, length = (p[n]&1)<<8 + p[n+1];
+   stops at the end TLV, at type 0, or when the value does not lie inside the frame.  Every step
+   advances by at least 2 bytes: fuel = len(p) never runs out. *)
+Fixpoint lldp_ops (fuel : nat) (p : bytes) (pos : nat) : list op :=
+  match fuel with
+  | O => []
+  | S f =>
+      if Nat.leb (plen p) (pos + 2) then []
+      else
+        let t := bt p pos / 2 in
+        let l := N.to_nat (N.land (bt p pos) 1 * 256 + bt p (pos + 1)) in
+        if (t =? 0) && Nat.eqb l 0 then []
+        else if Nat.leb (pos + 2 + l) (plen p) then
+          if t =? 0 then []
+          else
+            let v := vsub p (pos + 2) l in
+            (if (t =? 5) || (t =? 6) then [OString (lldp_type t) v]
+             else if t =? 7 then [OByteArr (s2b "capability") v; OString (s2b "type") (lldp_capability v)]
+             else [OByteArr (lldp_type t) v])
+            ++ lldp_ops f p (pos + l + 2)
+        else []
+  end.
 
 Definition view_ops (k : vkind) (p : bytes) : list vop :=
   map VOp
@@ -146,6 +203,19 @@ Definition view_ops (k : vkind) (p : bytes) : list vop :=
   | KPause => [ohex16 "opcode" (w16 p 0); ohex16 "duration" (w16 p 2)]
   | KIEEE1905 => [ouint "version" (bt p 0); ohex16 "type" (w16 p 2); ouint "id" (w16 p 4);
                   ouint "fragment" (bt p 6); ohex8 "flags" (bt p 7); oba "tlv" (skipn 8 p)]
+  | KLLC => [ouint "dsap" (bt p 0); ouint "ssap" (bt p 1); ostr "type" (llc_type p); ouint "control" (bt p 2)]
+  | KSNAP => [ouint "dsap" (bt p 0); ouint "control" (bt p 2); oba "orgid" (vsub p 3 3); ouint "ethertype" (w16 p 6)]
+  | KRRCP =>
+      if bt p 0 =? 35 then
+        [ostr "protocol" (s2b "realtek loop detection (0x23)"); oba "sixbytes" (vsub p 1 6); oba "zeros" (skipn 7 p)]
+      else if bt p 0 =? 1 then
+        [ostr "protocol" (s2b "realtek (0x01)"); obool "reply" (bit (bt p 1) 128); ohex8 "opcode" (N.land (bt p 1) 127)]
+      else [ohex8 "protocol" (bt p 0); ostr "msg" (s2b "unknown realtek protocol"); oba "payload" p]
+  | KRedirect =>
+      [ouint "type" (bt p 0); ouint "code" (bt p 1); ohex16 "checksum" (w16 p 2); ouint "naddrs" (bt p 4);
+       ouint "addrsize" (bt p 5); ouint "lifetime" (w16 p 6); ouint "lifetime" (w16 p 6);
+       OIPArr (s2b "addrs") (redirect_addrs p)]
+  | KLLDP => lldp_ops (plen p) p 0
   end.
 
 (* ---------------------------------------------------------------- table entries *)
@@ -209,11 +279,40 @@ Definition notif_ops (n : notif_t) : list vop :=
   ++ names_ops (nf_names n)
   ++ [VOp (obool "router" (nf_router n))].
 
+(* packet.DNSEntry: the record maps are ranged over in Go's map order, which is a parameter here:
+   the lists hold the IP.String() / CName texts in the order the iteration produced them *)
+Record dnsentry_t := mkDnsEntry { de_name : bytes; de_ip4 : list bytes; de_ip6 : list bytes; de_cname : list bytes }.
+Definition dnsentry_ops (d : dnsentry_t) : list vop :=
+  map VOp [ostr "name" (de_name d); OStrArr (s2b "ip4") (de_ip4 d); OStrArr (s2b "ip6") (de_ip6 d);
+           OStrArr (s2b "cname") (de_cname d)].
+
+(* packet.DNSNameEntry *)
+Record dnsname_t := mkDnsName { dn_addr : addr_t; dn_name : bytes; dn_model : bytes }.
+Definition dnsname_ops (d : dnsname_t) : list vop :=
+  [VStruct (Some (addr_ops (dn_addr d))); VOp (ostr "name" (dn_name d)); VOp (ostr "model" (dn_model d))].
+
+(* packet.IPNameEntry *)
+Record ipname_t := mkIpName { in_addr : addr_t; in_name : name_t }.
+Definition ipname_ops (n : ipname_t) : list vop :=
+  [VStruct (Some (addr_ops (in_addr n))); VStruct (Some (name_ops (in_name n)))].
+
+(* dhcp4_spoofer.Lease attached to its subnet; State.String; ls_lan = subnet.LAN.String() *)
+Definition lease_state_text (s : N) : bytes :=
+  if s =? 2 then s2b "allocated" else if s =? 1 then s2b "discovery" else s2b "free".
+Record lease_t := mkLease { ls_id : bytes; ls_state : N; ls_addr : addr_t; ls_name : bytes; ls_offer : option bytes;
+                            ls_stage : N; ls_gw : option bytes; ls_lan : bytes; ls_subid : bytes }.
+Definition lease_ops (l : lease_t) : list vop :=
+  [VOp (oba "id" (ls_id l)); VOp (ostr "state" (lease_state_text (ls_state l)));
+   VStruct (Some (addr_ops (ls_addr l))); VOp (ostr "name" (ls_name l)); VOp (oaddr_opt "offer" (ls_offer l));
+   VOp (ostr "capture" (stage_text (ls_stage l))); VOp (oaddr_opt "gw" (ls_gw l));
+   VOp (ostr "subnet" (ls_lan l)); VOp (ostr "subnet_id" (ls_subid l))].
+
 (* ---------------------------------------------------------------- one type for all of them *)
 
 Inductive view : Type :=
 | VBytes (k : vkind) (p : bytes)
-| VAddr (a : addr_t) | VName (n : name_t) | VHost (h : host_t) | VMac (e : mac_t) | VNotif (n : notif_t).
+| VAddr (a : addr_t) | VName (n : name_t) | VHost (h : host_t) | VMac (e : mac_t) | VNotif (n : notif_t)
+| VDnsEntry (d : dnsentry_t) | VDnsName (d : dnsname_t) | VIpName (n : ipname_t) | VLease (l : lease_t).
 
 Definition ops_of (v : view) : list vop :=
   match v with
@@ -223,4 +322,8 @@ Definition ops_of (v : view) : list vop :=
   | VHost h => host_ops h
   | VMac e => mac_ops e
   | VNotif n => notif_ops n
+  | VDnsEntry d => dnsentry_ops d
+  | VDnsName d => dnsname_ops d
+  | VIpName n => ipname_ops n
+  | VLease l => lease_ops l
   end.
